@@ -1466,3 +1466,38 @@ def q_wrap(cfg):
     res.count('counters doubling as flags', n)
     res.floor('counters doubling as flags', 2)
     return res
+
+
+def q_list_rmw(cfg):
+    """Q-19: the shared orphan-list heads change only by atomic read-modify-write"""
+    from .. import atomics
+    res = RuleResult('Q-19', 'the two global orphan-list heads are pushed onto concurrently by every pausing / exiting thread (CAS), so they are changed only by atomic read-modify-write operations - compare_exchange (push, publish) and exchange(nullptr) (take) - never by a plain store: a list emptied by "load, then store nullptr" overwrites a node pushed in between, whose requests are reachable from nowhere and never freed')
+    n = 0
+    LT = 'std::atomic<unodb::detail::dealloc_vector_list_node *>'
+    for f in cfg.functions:
+        if not f.blocks or f.basefile not in ('qsbr.hpp', 'qsbr.cpp'):
+            continue
+        for (e, op, path, orders, pos) in atomics.table(f):
+            obj = e.get('obj')
+            if e.get('ck') == 'op' and e.get('args'):
+                obj = e['args'][0]
+            x = f.strip_casts(obj) if obj is not None else None
+            t = (x.get('t') or '') if isinstance(x, dict) else ''
+            if LT not in t.replace('const ', ''):
+                continue
+            if is_assert_elem(e):
+                continue
+            n += 1
+            res.functions.add(f.sig)
+            ok = op in ('load', 'exchange', 'compare_exchange_weak', 'compare_exchange_strong')
+            if op == 'exchange':
+                a = f.strip_casts(e['args'][0]) if e.get('args') else None
+                okx = isinstance(a, dict) and a.get('k') == 'nullptr' and orders and orders[0] in (atomics.ACQ if hasattr(atomics, 'ACQ') else (2, 4, 5))
+                if not okx:
+                    ok = False
+            res.ob(ok, {'rule': 'Q-19', 'function': sh(f.sig)[:90], 'op': op, 'site': fileline(e.get('loc')), 'verdict': 'discharged' if ok else 'VIOLATION'})
+            if not ok:
+                res.find(f, e.get('loc'), '%s changes an orphan-list head by `%s`: the head must only change by compare_exchange or by exchange(nullptr) with acquire semantics - a plain store (or a take that is not one atomic exchange) loses every node that a pausing / exiting thread pushes between the read and the write; its requests are never freed' % (f.short, op), key='Q-19:%s:%s' % (f.short, op), config=cfg.name)
+    res.count('accesses to the orphan-list heads', n)
+    res.floor('accesses to the orphan-list heads', 5)
+    return res
